@@ -1,8 +1,8 @@
 --------------------------- MODULE MC_Rfc8888 ---------------------------
 (* (M) exhaustive check of the RFC 8888 recorder specification at scaled-down constants: every history of
-   <= MaxAdds packets (every wire number, ECN marks FirstEcn / Ecns, arrival clock = Tick * number of packets so far) over
+   <= MaxAdds packets (every wire number, ECN marks FirstEcn / Ecns, arrival clock (microseconds) = Tick * number of packets so far) over
    the streams SSRC and <= MaxBuilds reports (every maximum size in Sizes; report time = the time of the
-   latest arrival, or 1 ms before it).  The clauses of C08 are stated over independent history variables
+   latest arrival, or 1 us before it).  The clauses of C08 are stated over independent history variables
    (seen / first / rep / fresh), not over the log the machine keeps. *)
 EXTENDS Rfc8888
 CONSTANTS SSRC, Sizes, Ecns, FirstEcn, MaxAdds, MaxBuilds, Tick, Even
@@ -67,10 +67,14 @@ SizeBound == out.max >= HeaderLen(K(out.blocks)) => OutLen(out.blocks) <= out.ma
 ASSUME Even => \A ms \in 12 .. 1500, k \in 1 .. 12 :
           ms >= HeaderLen(k) => MarshalLen([s \in 1 .. k |-> Budget(ms, k)]) <= ms
 \* arrival time offsets: 13 bits, monotone in the age, saturating, never wrapping
-ASSUME \A d \in (0 .. 8200) \cup (63900 .. 66100) \cup {131072, 2000000} : /\ Ato(d, 0) \in 0 .. AtoOver
-                             /\ (Ato(d, 0) = AtoOver <=> d * 1024 >= 8190 * 1000)
-                             /\ (Ato(d, 0) < AtoOver => Ato(d, 0) * 1000 <= d * 1024 /\ d * 1024 < (Ato(d, 0) + 1) * 1000)
-ASSUME Ato(0, 1) = AtoAfter /\ Ato(0, 0) = 0 /\ Ato(1000, 0) = 1024 /\ Ato(64500, 0) = AtoOver
+ASSUME \A d \in (0 .. 3000) \cup (7995000 .. 8002000) \cup {63999999, 64000000, 64500000, 131072000} :
+         LET a == Ato(d, 0) IN
+         /\ a \in 0 .. AtoOver
+         /\ (a = AtoOver <=> d * 16 >= 8190 * 15625)                       \* 1024 * seconds >= 0x1FFE
+         /\ (a < AtoOver => a * 15625 <= d * 16 /\ d * 16 < (a + 1) * 15625)  \* a = floor(1024 * seconds)
+ASSUME /\ Ato(0, 1) = AtoAfter /\ Ato(0, 0) = 0 /\ Ato(1000000, 0) = 1024 /\ Ato(64500000, 0) = AtoOver
+       /\ Ato(976, 0) = 0 /\ Ato(977, 0) = 1 /\ Ato(7998046, 0) = AtoMax /\ Ato(7998047, 0) = AtoOver
+       /\ Ato(7999023, 0) = AtoOver /\ Ato(7999024, 0) = AtoOver /\ Ato(7999999, 0) = AtoOver
 
 \* ---- action properties: the clauses of C08 for every report ----
 \* one block per known stream, contiguous, ending at the highest number received, beginning at or after the cursor
